@@ -31,8 +31,23 @@ package ringbuffer
 //
 // Outside the claimed domain (not generated): chunk size / stride 0 or negative (a
 // "multiple of 0" is meaningless; both calls divide by it), negative Read sizes.
+//
+// Geometry. Ring sizes from 8 bytes to 1 MiB in ordinary runs (powers of two, one more and one
+// less, primes, page multiples and sizes that are not: the reader's Open maps the data region
+// read-only, and what lies between the end of the ring and the end of its last page is not
+// the ring's), and in a small fraction of the runs ("large" runs, c18LargeOneIn) 16–64 MiB
+// with a reader that lets the backlog grow to tens of MiB before it reads: a consumer that
+// fell behind on a ring of DEED's real size. Chunk sizes, strides and read sizes come from
+// the same wide menu (1, powers of two, odd, prime, the ring size, more than the ring size,
+// relative to the backlog, log-uniform).
+// Rings above 64 KiB carry a pattern that is generated and compared at memcpy speed (a
+// table of period 1048573, a prime, with the absolute stream offset stamped over the first
+// 8 bytes of every 4096-byte block of the stream), so every returned byte is still compared;
+// the number of bytes that flow through such a ring is bounded per run (c18World.budget).
 
 import (
+	"bytes"
+	"encoding/binary"
 	"fmt"
 	"os"
 	"path/filepath"
@@ -71,15 +86,68 @@ func c18Classify(site string) string {
 // by a multiple of 256 or of the ring size is visible too).
 func c18Pat(i int) byte { return byte(i + (i>>8)*7 + (i>>16)*29) }
 
+// Fast pattern (rings above 64 KiB): byte i of the stream is c18T[i mod c18P], except that
+// the 8 bytes from every multiple b of 4096 hold b (little endian, xor 0xA5).
+const c18P = 1048573 // prime: no ring size, chunk size or power of two is a multiple
+
+var c18T []byte
+
+func c18Table() []byte {
+	if c18T == nil {
+		t := make([]byte, c18P)
+		x := uint64(0xc18c18c18)
+		for i := range t {
+			x += 0x9e3779b97f4a7c15
+			z := x
+			z = (z ^ (z >> 30)) * 0xbf58476d1ce4e5b9
+			z = (z ^ (z >> 27)) * 0x94d049bb133111eb
+			t[i] = byte((z ^ (z >> 31)) >> 24)
+		}
+		c18T = t
+	}
+	return c18T
+}
+
+func c18FastAt(i int) byte {
+	if j := i & 4095; j < 8 {
+		return byte(uint64(i&^4095)>>(8*uint(j))) ^ 0xA5
+	}
+	return c18Table()[i%c18P]
+}
+
+// c18FastFill writes the stream's bytes pos … pos+len(dst)-1 into dst.
+func c18FastFill(dst []byte, pos int) {
+	t := c18Table()
+	for n := 0; n < len(dst); {
+		n += copy(dst[n:], t[(pos+n)%c18P:])
+	}
+	end := pos + len(dst)
+	for b := pos &^ 4095; b < end; b += 4096 {
+		for j := 0; j < 8; j++ {
+			if i := b + j; i >= pos && i < end {
+				dst[i-pos] = byte(uint64(b)>>(8*uint(j))) ^ 0xA5
+			}
+		}
+	}
+}
+
+var c18Expect []byte // scratch of the comparison (one run at a time per process)
+
 type c18World struct {
 	env  *simrt.Env
 	size int
-	wb   *RingBuffer // writer's handle (Create)
-	rb   *RingBuffer // reader's handle (Open, or the same object)
-	wpos int         // model: bytes accepted by Write so far
-	rpos int         // model: absolute offset of the front of the queue
-	mode int         // reader swarm mode
-	hold bool
+	fast bool // pattern of rings above 64 KiB
+	// large runs: a ring of tens of MiB and a reader that falls behind
+	large  bool
+	budget int         // bytes Write may still be offered in full (bounds the work of a run on a big ring)
+	opened bool        // the reader's handle comes from Open
+	slack  int         // bytes between the end of the ring and the end of its last page
+	wb     *RingBuffer // writer's handle (Create)
+	rb     *RingBuffer // reader's handle (Open, or the same object)
+	wpos   int         // model: bytes accepted by Write so far
+	rpos   int         // model: absolute offset of the front of the queue
+	mode   int         // reader swarm mode
+	hold   bool
 
 	scratch  []byte
 	held     []byte // C18hold: slice returned by the last read
@@ -92,6 +160,54 @@ type c18World struct {
 }
 
 func (w *c18World) queued() int { return w.wpos - w.rpos }
+
+// pat is the byte at absolute stream offset i.
+func (w *c18World) pat(i int) byte {
+	if w.fast {
+		return c18FastAt(i)
+	}
+	return c18Pat(i)
+}
+
+func (w *c18World) fill(dst []byte, pos int) {
+	if w.fast {
+		c18FastFill(dst, pos)
+		return
+	}
+	for j := range dst {
+		dst[j] = c18Pat(pos + j)
+	}
+}
+
+// mismatch returns the index of the first byte of data that is not the stream's byte at
+// pos+index, or -1.
+func (w *c18World) mismatch(data []byte, pos int) int {
+	if !w.fast {
+		for i, b := range data {
+			if b != c18Pat(pos+i) {
+				return i
+			}
+		}
+		return -1
+	}
+	const piece = 1 << 20
+	if c18Expect == nil {
+		c18Expect = make([]byte, piece)
+	}
+	for off := 0; off < len(data); off += piece {
+		n := c18Min(piece, len(data)-off)
+		exp := c18Expect[:n]
+		c18FastFill(exp, pos+off)
+		if !bytes.Equal(data[off:off+n], exp) {
+			for i := 0; i < n; i++ {
+				if data[off+i] != exp[i] {
+					return off + i
+				}
+			}
+		}
+	}
+	return -1
+}
 
 func c18Min(a, b int) int {
 	if a < b {
@@ -122,9 +238,56 @@ func c18Choose(groups [][]int, lo, smallMax, bigMax int) int {
 	return v
 }
 
+var c18Primes = []int{2, 3, 5, 7, 13, 31, 127, 251, 257, 1009, 4093, 4099, 8191, 10007, 65521, 65537, 131071, 524287, 1000003, 1048573, 16777213, 16777259, 33554467}
+
+// c18LogUniform draws from [1, max]: first a number of bits, then a value with that many bits.
+func c18LogUniform(max int) int {
+	if max < 2 {
+		return 1
+	}
+	bits := 0
+	for 1<<uint(bits+1) <= max {
+		bits++
+	}
+	b := simrt.Draw(bits + 1)
+	v := 1<<uint(b) + simrt.Draw(1<<uint(b))
+	if v > max {
+		v = max
+	}
+	return v
+}
+
+// c18Wide draws a size from a wide menu that does not depend on the state: 1, a power of
+// two (or one more, one less), a prime, a multiple of 1000, log-uniform; at most max.
+func c18Wide(max int) int {
+	v := 1
+	switch simrt.Draw(5) {
+	case 0:
+		b := 0
+		for 1<<uint(b+1) <= max {
+			b++
+		}
+		v = 1<<uint(simrt.Draw(b+1)) + simrt.Draw(3) - 1
+	case 1:
+		v = c18Primes[simrt.Draw(len(c18Primes))]
+	case 2:
+		v = []int{1, 1000, 10000, 8000, 12000, 100000, 1000000, 10000000, 3 << 10, 3 << 20, 3 << 22, 5 << 22}[simrt.Draw(12)]
+	default:
+		v = c18LogUniform(max)
+	}
+	if v > max {
+		v = 1 + v%max
+	}
+	if v < 1 {
+		v = 1
+	}
+	return v
+}
+
 func c18Size() int {
-	menu := []int{8, 9, 16, 13, 64, 100, 256, 1000, 4096, 8192, 65536, 65535}
-	k := simrt.Draw(len(menu) + 3)
+	menu := []int{8, 9, 16, 13, 64, 100, 256, 1000, 4096, 8192, 65536, 65535,
+		4095, 4097, 5000, 10000, 12288, 12289, 8191, 65537, 100000, 131072, 131071, 1 << 20, 1<<20 + 1, 999983}
+	k := simrt.Draw(len(menu) + 4)
 	switch {
 	case k < len(menu):
 		return menu[k]
@@ -132,8 +295,21 @@ func c18Size() int {
 		return 8 + simrt.Draw(57)
 	case k == len(menu)+1:
 		return 8 + simrt.Draw(1017)
+	case k == len(menu)+2:
+		return 7 + c18LogUniform(1<<20-7)
 	}
 	return 8 + simrt.Draw(65536-8+1)
+}
+
+// one run in c18LargeOneIn has a ring of 16–64 MiB (mostly near the lower end: the cost of a
+// run grows with the size)
+const c18LargeOneIn = 40
+
+func c18LargeSize() int {
+	const MiB = 1 << 20
+	menu := []int{17*MiB + 1, 20 * MiB, 16*MiB + 4096, 16*MiB + 4097, 18*MiB + 4095, 24*MiB + 10000, 20000000, 16777259 + 4096, 17*MiB + simrt.Draw(4*MiB), 17*MiB + simrt.Draw(4*MiB),
+		32 * MiB, 33554467, 32*MiB - 1, 48*MiB + 1, 64 * MiB, 24*MiB + simrt.Draw(40*MiB)}
+	return menu[simrt.Draw(len(menu))]
 }
 
 // raw renders the implementation's own pointers next to the model's for the operation log
@@ -150,11 +326,26 @@ func c18Body(env *simrt.Env, hold bool) {
 	// signal for the whole worker; make it a panic of this task (reported as a crash).
 	debug.SetPanicOnFault(true)
 	w := &c18World{env: env, hold: hold}
-	w.size = c18Size()
+	w.large = simrt.Draw(c18LargeOneIn) == c18LargeOneIn-1
+	if w.large {
+		w.size = c18LargeSize()
+	} else {
+		w.size = c18Size()
+	}
+	w.fast = w.size > 65536
+	w.budget = 1 << 60
 	sameObject := simrt.Draw(4) == 3
 	w.mode = simrt.Draw(3)
 	nW := 2 + simrt.Draw(30)
 	nR := 2 + simrt.Draw(30)
+	if w.fast {
+		w.budget = 2*w.size + simrt.Draw(2*w.size)
+	}
+	if w.large {
+		nW, nR = 2+simrt.Draw(8), 2+simrt.Draw(8)
+		w.budget = w.size + 1 + simrt.Draw(w.size)
+		simrt.Hit("large-ring")
+	}
 
 	// per-run unique names: env.Dir is <tmp>/run-<pid>-<run>
 	tag := filepath.Base(env.Dir)
@@ -206,13 +397,18 @@ func c18Body(env *simrt.Env, hold bool) {
 			simrt.Fail("C18.setup", "harness:cannot-open-ring", "Open: %v", err)
 		}
 		w.rb = rb
+		w.opened = true
+		if pg := os.Getpagesize(); w.size%pg != 0 {
+			w.slack = pg - w.size%pg
+			simrt.Hit("reader-opened-ring-not-page-multiple")
+		}
 	}
 	// Both handles hold their mappings: remove the names now, so that nothing is left in
 	// /dev/shm however the run ends.
 	if err := wb.Unlink(); err != nil {
 		simrt.Fail("C18.setup", "harness:cannot-unlink-ring", "Unlink: %v", err)
 	}
-	env.Op("ring size=%d reader=%s mode=%d writer-ops=%d reader-ops=%d", w.size, map[bool]string{false: "second handle (Open)", true: "same object"}[sameObject], w.mode, nW, nR)
+	env.Op("ring size=%d reader=%s mode=%d writer-ops=%d reader-ops=%d large=%v", w.size, map[bool]string{false: "second handle (Open)", true: "same object"}[sameObject], w.mode, nW, nR, w.large)
 	w.scratch = make([]byte, 0, w.size+32)
 
 	simrt.GoHarness("writer", func() { w.writer(nW) })
@@ -235,6 +431,7 @@ func c18Body(env *simrt.Env, hold bool) {
 	if n := w.rb.BytesReadable(); n != 0 {
 		simrt.Fail("C18.readable", "ringbuffer:bytesreadable-wrong", "BytesReadable()=%d after the ring was drained", n)
 	}
+	w.scratch, w.held = nil, nil
 	env.Sample(map[string]interface{}{"size": w.size, "same_object": sameObject, "mode": w.mode, "writes": w.nWrites, "reads": w.nReads,
 		"discards": w.nDiscard, "bytes_accepted": w.wpos, "max_queued": w.maxQueue})
 }
@@ -276,11 +473,26 @@ func (w *c18World) opWrite() {
 	size, q := w.size, w.queued()
 	free := size - 1 - q // used to bias the sizes only
 	tw := size - w.wpos%size
-	n := c18Choose([][]int{{1, 0, 2, 3, 7}, {free, free - 1, free + 1, free / 2, free - 2}, {tw, tw - 1, tw + 1}, {size - 1, size, size + 1, size / 2}}, 0, 17, size+2)
-	buf := w.scratch[:n]
-	for j := range buf {
-		buf[j] = c18Pat(w.wpos + j)
+	n := c18Choose([][]int{{1, 0, 2, 3, 7}, {free, free - 1, free + 1, free / 2, free - 2}, {tw, tw - 1, tw + 1}, {size - 1, size, size + 1, size / 2}, {c18Wide(size + 1)}}, 0, 17, size+2)
+	if w.large && simrt.Draw(2) == 0 {
+		// DEED fills a big ring in big pieces
+		n = []int{free, size / 2, 1<<24 + 1 + simrt.Draw(size-1<<24), free - simrt.Draw(8192), tw}[simrt.Draw(5)]
+		if n < 0 {
+			n = 0
+		}
 	}
+	if n > w.budget {
+		// the run's byte budget is used up: small writes only
+		if n = 1 + simrt.Draw(4096); n > size {
+			n = size
+		}
+	}
+	if n > cap(w.scratch) {
+		n = cap(w.scratch)
+	}
+	buf := w.scratch[:n]
+	// (bytes that cannot be accepted need no content: the ring has room for size-q at most)
+	w.fill(buf[:c18Min(n, size-q+1)], w.wpos)
 	got, err := w.wb.Write(buf)
 	w.nWrites++
 	w.env.Op("W Write(%d) -> %d, err=%v [%s]", n, got, err, w.raw())
@@ -319,6 +531,7 @@ func (w *c18World) opWrite() {
 		simrt.Hit("write-when-full")
 	}
 	w.wpos += got
+	w.budget -= got
 	if nq := w.queued(); nq >= size-1 {
 		simrt.Hit("exactly-full")
 		if got == n && got > 0 {
@@ -352,7 +565,18 @@ func (w *c18World) reader(nops int) {
 			w.env.Op("fault: writer stalled for %d steps", steps)
 		}
 		w.recheckHeld()
-		switch k := simrt.Draw(12); {
+		if w.large && simrt.Draw(3) != 0 {
+			// a consumer that fell behind: it comes back when the backlog has grown (or DEED has stopped)
+			want := []int{1<<24 + 1 + simrt.Draw(w.size-1<<24), w.size - 1, w.size / 2, 1<<24 + 1}[simrt.Draw(4)]
+			for w.queued() < want && !w.wdone {
+				time.Sleep(20 * time.Microsecond)
+			}
+		}
+		k := simrt.Draw(12)
+		if w.large && simrt.Draw(2) == 0 {
+			k = 5 // what dastard does with the ring: size-constrained reads
+		}
+		switch {
 		case k < 5:
 			w.opRead()
 		case k < 8:
@@ -376,16 +600,10 @@ func (w *c18World) reader(nops int) {
 func (w *c18World) consume(op string, data []byte) {
 	q := w.queued()
 	n := len(data)
-	bad := -1
-	for i := 0; i < n && i < q; i++ {
-		if data[i] != c18Pat(w.rpos+i) {
-			bad = i
-			break
-		}
-	}
+	bad := w.mismatch(data[:c18Min(n, q)], w.rpos)
 	if bad >= 0 {
 		simrt.Fail("C18.fifo", "ringbuffer:read-wrong-bytes", "%s returned %d bytes; byte %d is 0x%02x, want 0x%02x = the byte at stream offset %d (the read position is %d, %d bytes accepted so far). %s",
-			op, n, bad, data[bad], c18Pat(w.rpos+bad), w.rpos+bad, w.rpos, w.wpos, w.attribute(data[bad:], w.rpos+bad))
+			op, n, bad, data[bad], w.pat(w.rpos+bad), w.rpos+bad, w.rpos, w.wpos, w.attribute(data[bad:], w.rpos+bad))
 	}
 	if n > q {
 		simrt.Fail("C18.fifo", "ringbuffer:read-more-than-buffered", "%s returned %d bytes but only %d are buffered (read position %d, %d bytes accepted so far). %s",
@@ -395,6 +613,15 @@ func (w *c18World) consume(op string, data []byte) {
 		off := w.rpos % w.size
 		if off+n > w.size {
 			simrt.Hit("wrap-during-read")
+			if w.opened && w.slack > 0 {
+				simrt.Hit("wrap-during-read-on-opened-ring-not-page-multiple")
+				if off+n-w.size <= w.slack {
+					simrt.Hit("wrapped-read-continuation-shorter-than-page-slack")
+				}
+			}
+			if n > 1<<24 {
+				simrt.Hit("wrap-during-read-of-more-than-16MiB")
+			}
 		} else if off+n == w.size {
 			simrt.Hit("read-ends-at-wrap")
 		}
@@ -403,6 +630,9 @@ func (w *c18World) consume(op string, data []byte) {
 		} else if n < q {
 			simrt.Hit("read-leaves-data")
 		}
+	}
+	if n > 1<<24 {
+		simrt.Hit("read-returns-more-than-16MiB")
 	}
 	if w.hold && n > 0 {
 		w.held, w.heldPos = data, w.rpos
@@ -413,6 +643,9 @@ func (w *c18World) consume(op string, data []byte) {
 
 // attribute says which stream offset the bytes actually come from, if any.
 func (w *c18World) attribute(got []byte, want int) string {
+	if w.fast {
+		return w.attributeFast(got, want)
+	}
 	m := c18Min(len(got), 6)
 	if m < 3 {
 		return ""
@@ -443,17 +676,58 @@ func (w *c18World) attribute(got []byte, want int) string {
 	return "The returned bytes match no nearby stream offset."
 }
 
+// attributeFast (rings with the fast pattern): the first offset stamp in the returned bytes
+// tells which stream offset they come from.
+func (w *c18World) attributeFast(got []byte, want int) string {
+	for j := 0; j+16 <= len(got) && j < 8192; j++ {
+		v := binary.LittleEndian.Uint64(got[j:]) ^ 0xA5A5A5A5A5A5A5A5
+		if v%4096 != 0 || v > uint64(w.wpos+2*w.size) {
+			continue
+		}
+		ok := true
+		for t := 8; t < 16; t++ {
+			ok = ok && got[j+t] == c18FastAt(int(v)+t)
+		}
+		if !ok {
+			continue
+		}
+		from := int(v) - j
+		switch {
+		case from < want:
+			return fmt.Sprintf("The returned bytes are those of stream offset %d: %d bytes behind, i.e. data already consumed or discarded are returned again.", from, want-from)
+		case from >= w.wpos:
+			return fmt.Sprintf("The returned bytes would be those of stream offset %d, which was never written.", from)
+		case from > want:
+			return fmt.Sprintf("The returned bytes are those of stream offset %d: %d bytes were skipped.", from, from-want)
+		}
+		return "From the next offset stamp on the returned bytes are the right ones."
+	}
+	return "The returned bytes match no stream offset (no offset stamp nearby)."
+}
+
 func (w *c18World) recheckHeld() {
 	if !w.hold || w.held == nil {
 		return
 	}
-	for i, b := range w.held {
-		if b != c18Pat(w.heldPos+i) {
-			simrt.Fail("C18.read-stable", "ringbuffer:returned-slice-overwritten", "the slice returned by an earlier read (stream offsets %d..%d) changed after later writer operations: byte %d is now 0x%02x, was 0x%02x (the returned slice aliases the shared memory, which the read had already released for overwriting)",
-				w.heldPos, w.heldPos+len(w.held), i, b, c18Pat(w.heldPos+i))
-		}
+	if i := w.mismatch(w.held, w.heldPos); i >= 0 {
+		simrt.Fail("C18.read-stable", "ringbuffer:returned-slice-overwritten", "the slice returned by an earlier read (stream offsets %d..%d) changed after later writer operations: byte %d is now 0x%02x, was 0x%02x (the returned slice aliases the shared memory, which the read had already released for overwriting)",
+			w.heldPos, w.heldPos+len(w.held), i, w.held[i], w.pat(w.heldPos+i))
 	}
 	w.held = nil
+}
+
+// backlogProbe: the reader is far behind (chunk = the chunk size of a size-constrained read, or 0).
+func (w *c18World) backlogProbe(q, chunk int) {
+	if q <= 1<<24 {
+		return
+	}
+	simrt.Hit("read-with-backlog-over-16MiB")
+	if chunk > 0 && chunk < w.size {
+		simrt.Hit("readmultiple-with-backlog-over-16MiB")
+		if chunk&(chunk-1) != 0 {
+			simrt.Hit("readmultiple-with-backlog-over-16MiB-chunk-not-a-power-of-two")
+		}
+	}
 }
 
 func (w *c18World) emptyProbe() {
@@ -465,8 +739,9 @@ func (w *c18World) emptyProbe() {
 func (w *c18World) opRead() {
 	size, q := w.size, w.queued()
 	tr := size - w.rpos%size
-	n := c18Choose([][]int{{1, 0, 2, 3}, {q, q - 1, q + 1, q / 2}, {tr, tr - 1, tr + 1}, {size - 1, size, size + 1}}, 0, 17, size+2)
+	n := c18Choose([][]int{{1, 0, 2, 3}, {q, q - 1, q + 1, q / 2}, {tr, tr - 1, tr + 1}, {size - 1, size, size + 1}, {c18Wide(2*size + 1)}}, 0, 17, size+2)
 	w.emptyProbe()
+	w.backlogProbe(q, 0)
 	data, err := w.rb.Read(n)
 	w.env.Op("R Read(%d) -> %d bytes, err=%v [%s]", n, len(data), err, w.raw())
 	if err != nil {
@@ -484,6 +759,7 @@ func (w *c18World) opRead() {
 func (w *c18World) opReadAll() {
 	q := w.queued()
 	w.emptyProbe()
+	w.backlogProbe(q, 0)
 	data, err := w.rb.ReadAll()
 	w.env.Op("R ReadAll() -> %d bytes, err=%v [%s]", len(data), err, w.raw())
 	if err != nil {
@@ -497,8 +773,9 @@ func (w *c18World) opReadAll() {
 
 func (w *c18World) opReadMultipleOf() {
 	size, q := w.size, w.queued()
-	k := c18Choose([][]int{{1, 2, 3, 4, 8}, {q, q + 1, q - 1, q / 2, q/2 + 1, q / 3}, {size - 1, size - 2, size, size + 1}}, 1, 16, size)
+	k := c18Choose([][]int{{1, 2, 3, 4, 8}, {q, q + 1, q - 1, q / 2, q/2 + 1, q / 3}, {size - 1, size - 2, size, size + 1}, {c18Wide(2 * size)}, {c18Wide(size/4 + 1)}}, 1, 16, size)
 	w.emptyProbe()
+	w.backlogProbe(q, k)
 	data, err := w.rb.ReadMultipleOf(k)
 	w.env.Op("R ReadMultipleOf(%d) -> %d bytes, err=%v [%s]", k, len(data), err, w.raw())
 	if err != nil {
@@ -539,7 +816,7 @@ func (w *c18World) opBytesReadable() {
 func (w *c18World) opDiscardStride() {
 	size, q := w.size, w.queued()
 	tr := size - w.rpos%size
-	k := c18Choose([][]int{{1, 2, 3, 4, 8}, {q, q + 1, q - 1, q / 2}, {size - 1, size, size + 1, tr}, {w.wpos, w.wpos + 1, w.wpos / 2, 8192}}, 1, 16, size)
+	k := c18Choose([][]int{{1, 2, 3, 4, 8}, {q, q + 1, q - 1, q / 2}, {size - 1, size, size + 1, tr}, {w.wpos, w.wpos + 1, w.wpos / 2, 8192}, {c18Wide(2 * size)}}, 1, 16, size)
 	old := w.rpos
 	boundary := w.wpos / k * k // the last stride boundary not beyond the write position
 	if w.mode == 2 && boundary < old {
